@@ -21,7 +21,15 @@ import KavaVerif.Model.Swap
     c07.k kind nA nD fee allowed pools shares bal who d1 x1 d2 x2 z => cls tag pools' shares' bal'
       kind ∈ dep | wd | sx | sfx ; z = slippage mantissa (dep,sx,sfx) or shares (wd)
       pools = 3 ints per pool id in the order (0,1),(0,2),…; shares = row per account; bal = row per
-      account, last row = the swap module account.
+      account, last row = the swap module account.  fee / allowed = the parameters IN FORCE for this message
+      (read by the harness from the x/params subspace right before it), which governance changes mid-history.
+      A withdrawal is additionally checked to pay exactly the share value of the stored record
+      (C07_withdraw_pays_share_value) and, when refused although the account owns the shares and the share
+      value meets the message's minimums, reported as C07_withdraw_available — both whether or not the pool
+      is still on the allowed list.
+    c07.gov nA nD feeOld allowedOld feeNew allowedNew pools shares bal => pools' shares' bal'
+      a governance parameter change while pools exist: parameters are not state, so nothing may move; custody
+      (module balance = Σ reserves of ALL stored pools, listed or not), shares sums and record validity hold.
 -/
 namespace Drv.C07
 open KV KV.SW
@@ -359,7 +367,24 @@ def hK : Handler
         | _ => swapForExactTokens M prm s who d1 x1 d2 x2 ⟨z⟩
       let modelCls := match res with | .ok _ => "ok" | .err => "err" | .panic => "panic"
       if cls == "panic" then predfail "C07_no_panic" s!"keeper-{kind}"
-      else if cls != "ok" then expectEq "result" modelCls cls
+      else if cls != "ok" then
+        -- a refused withdrawal: C07_withdraw_available on the observed pre-state (the account owns the shares,
+        -- the pool record exists, the share value meets the positive minimums ⇒ it must not be refused —
+        -- no parameter, in particular not the allowed-pools list, may stand in the way of an exit)
+        let avail :=
+          if kind != "wd" || d1 == d2 then "ok" else
+          let pid := poolId d1 d2
+          let i := pidIdx nD pid
+          let p := poolAt pre i
+          let own := shares.getD (who * nP + i) 0
+          if !(i < nP) || p.s ≤ 0 || p.a ≤ 0 || p.b ≤ 0 || z ≤ 0 || z > own || x1 ≤ 0 || x2 ≤ 0 then "ok" else
+          let v1 := (if d1 = pid.lo then p.a else p.b) * z / p.s
+          let v2 := (if d2 = pid.lo then p.a else p.b) * z / p.s
+          if v1 < x1 || v2 < x2 then "ok"
+          else predfail "C07_withdraw_available"
+            (if allowed.getD i 0 == 1 then "refused-withdrawal-that-meets-its-minimums"
+             else "refused-withdrawal-from-delisted-pool")
+        verdict (expectEq "result" modelCls cls) avail
       else
       match ints? pools', ints? shares', ints? bal' with
       | some pools', some shares', some bal' =>
@@ -407,7 +432,18 @@ def hK : Handler
           | "wd" =>
             let wA := ub post d1 - ub pre d1
             let wB := ub post d2 - ub pre d2
+            let vA := (if d1 = pid.lo then p.a else p.b) * z / p.s
+            let vB := (if d2 = pid.lo then p.a else p.b) * z / p.s
+            let (rA, rB, rA', rB') := if d1 = pid.lo then (p.a, p.b, p'.a, p'.b) else (p.b, p.a, p'.b, p'.a)
+            let listed := allowed.getD i 0 == 1
             if wA < x1 || wB < x2 then predfail "C07_slippage_enforced" "withdrawal-below-minimum"
+            else if p.s ≤ 0 then predfail "C07_withdraw_pays_share_value" "withdrawal-without-pool-record"
+            else if wA != vA || wB != vB then
+              predfail "C07_withdraw_pays_share_value"
+                (if listed then "paid-differs-from-share-value" else "delisted-pool-paid-differs-from-share-value")
+            else if rA - rA' != vA || rB - rB' != vB then
+              predfail "C07_withdraw_pays_share_value"
+                (if listed then "reserves-reduced-by-other-than-share-value" else "delisted-pool-reserves-reduced-by-other-than-share-value")
             else if sh - sh' != z then predfail "C07_shares_sum" "burned-shares-differ"
             else if p.s - p'.s != z then predfail "C07_shares_sum" "burned-shares-differ"
             else if p.a * p'.s > p'.a * p.s || p.b * p'.s > p'.b * p.s then predfail "C07_share_value_monotone" "withdraw-dilutes"
@@ -438,7 +474,25 @@ def hK : Handler
     | _, _, _, _, _, _, _, _, _, _, _, _, _ => badInput "parse"
   | _ => badInput "arity"
 
+def hGov : Handler
+  | [nA, nD, _feeOld, _alOld, fee, allowed, pools, shares, bal, _, pools', shares', bal'] =>
+    match nat? nA, nat? nD, int? fee, ints? allowed, ints? pools, ints? shares, ints? bal,
+          ints? pools', ints? shares', ints? bal' with
+    | some nA, some nD, some fee, some _, some pools, some shares, some bal, some pools', some shares', some bal' =>
+      if fee < 0 || fee ≥ P then predfail "C07_fee_kept" "fee-parameter-out-of-range"
+      else
+      match invPred nA nD ⟨pools', shares', bal'⟩ with
+      | some (n, why) => predfail n why
+      | none =>
+        if pools != pools' then predfail "C07_custody" "param-change-rewrote-pool-record"
+        else if shares != shares' then predfail "C07_shares_sum" "param-change-rewrote-share-record"
+        else if bal != bal' then predfail "C07_custody" "param-change-moved-coins"
+        else "ok"
+    | _, _, _, _, _, _, _, _, _, _ => badInput "parse"
+  | _ => badInput "arity"
+
 def handlers : List (String × Handler) := [
+  ("c07.gov", hGov),
   ("c07.new", hNew), ("c07.add", hAdd), ("c07.rem", hRem), ("c07.swap", hSwap),
   ("c07.rt", hRt), ("c07.seq", hSeq), ("c07.sym", hSym), ("c07.k", hK)]
 end Drv.C07
